@@ -72,7 +72,7 @@ pub fn convert_grammar_functions_to_semantic_functions(
                     output.len()
                 );
             }
-            make_padding_functions(&mut output, index);
+            make_padding_functions(&mut output, index, functions);
         }
         let Some(function) = function::build(type_registry, &module.scope(), true, function)
             .with_context(|| format!("while building vftable function `{}`", function.name))?
@@ -90,13 +90,21 @@ pub fn convert_grammar_functions_to_semantic_functions(
                 output.len()
             );
         }
-        make_padding_functions(&mut output, size);
+        make_padding_functions(&mut output, size, functions);
     }
 
-    fn make_padding_functions(output: &mut Vec<Function>, target_len: usize) {
+    fn make_padding_functions(
+        output: &mut Vec<Function>,
+        target_len: usize,
+        declared: &[grammar::Function],
+    ) {
         let functions_to_add = target_len.saturating_sub(output.len());
         for _ in 0..functions_to_add {
-            let name = format!("_vfunc_{}", output.len());
+            // A placeholder must not take the name of a declared function
+            let mut name = format!("_vfunc_{}", output.len());
+            while declared.iter().any(|f| f.name.as_str() == name) {
+                name.push('_');
+            }
             output.push(Function {
                 visibility: Visibility::Private,
                 name: name.clone(),
